@@ -6,6 +6,7 @@ import (
 	"go/ast"
 	"go/token"
 	"go/types"
+	"strings"
 
 	"fpcheck/core"
 
@@ -353,6 +354,12 @@ func PanicCapture(c *core.Ctx, rule string, pkgs []*packages.Package, mustHave m
 				}
 				return true
 			})
+			// (4) the recovered value is carried, not interpreted: no type assertion / type switch on it, here or in a
+			// module function it is handed to
+			if where := typeInspected(c, fb.Pkg, hl.Body, recVar, 0); where != token.NoPos {
+				c.Add(rule, key, where, core.Violated, "the handler (or a helper it passes "+recVar.Name()+" to) examines the dynamic type of the recovered value: for panic values of that type the Failure exposes something other than the value that was panicked with")
+				continue
+			}
 			switch {
 			case outside:
 				c.Add(rule, key, ds.Pos(), core.Violated, "the recover handler assigns the result / completes the promise outside the `"+recVar.Name()+" != nil` branch: a normal return is turned into a failure (or overwritten)")
@@ -373,4 +380,51 @@ func PanicCapture(c *core.Ctx, rule string, pkgs []*packages.Package, mustHave m
 		}
 	}
 	c.Floor(rule, "deferred recover handlers", n, 2)
+}
+
+// typeInspected reports the position of a type assertion / type switch applied to obj inside body, following obj into
+// module functions it is passed to (two levels).
+func typeInspected(c *core.Ctx, p *packages.Package, body ast.Node, obj types.Object, depth int) token.Pos {
+	info := p.TypesInfo
+	pos := token.NoPos
+	ast.Inspect(body, func(x ast.Node) bool {
+		if pos != token.NoPos {
+			return false
+		}
+		switch s := x.(type) {
+		case *ast.TypeAssertExpr:
+			if objOf(info, s.X) == obj {
+				pos = s.Pos()
+			}
+		case *ast.CallExpr:
+			if depth >= 2 {
+				return true
+			}
+			callee := calleeOf(info, s)
+			if callee == nil || callee.Pkg() == nil || !strings.HasPrefix(callee.Pkg().Path(), core.ModPath) {
+				return true
+			}
+			fd := c.FuncDecl(callee.Origin())
+			cp := c.ByPath[callee.Pkg().Path()]
+			if fd == nil || fd.Body == nil || cp == nil {
+				return true
+			}
+			// parameter objects in order
+			var params []types.Object
+			for _, f := range fd.Type.Params.List {
+				for _, nm := range f.Names {
+					params = append(params, cp.TypesInfo.Defs[nm])
+				}
+			}
+			for i, a := range s.Args {
+				if objOf(info, a) == obj && i < len(params) && params[i] != nil {
+					if w := typeInspected(c, cp, fd.Body, params[i], depth+1); w != token.NoPos {
+						pos = w
+					}
+				}
+			}
+		}
+		return true
+	})
+	return pos
 }
